@@ -170,6 +170,15 @@ def check_union_typevar(ctx):
     lc = comps[0]
     need(isinstance(lc.generators[0].target, ast.Name), "C15.2: the union comprehension does not bind one member variable")
     v = lc.generators[0].target.id
+    # `(made for x in members if (made := _make_array(x, ..)) is not _not_made)`: build and filter in one pass -- the element is what the
+    # walrus in the filter bound, the filter is the not-made filter
+    walrus_filter = None
+    if isinstance(lc.elt, ast.Name) and len(lc.generators[0].ifs) == 1:
+        cond = lc.generators[0].ifs[0]
+        if isinstance(cond, ast.Compare) and len(cond.ops) == 1 and isinstance(cond.ops[0], ast.IsNot) and isinstance(cond.left, ast.NamedExpr) \
+                and isinstance(cond.left.target, ast.Name) and cond.left.target.id == lc.elt.id and norm(cond.comparators[0]) == "_not_made":
+            walrus_filter = cond
+            lc = ast.copy_location(type(lc)(elt=cond.left.value, generators=[ast.comprehension(target=lc.generators[0].target, iter=lc.generators[0].iter, ifs=[], is_async=0)]), lc)
     lvs = leaves_of(lc.elt)
     made = [e for e in lvs if isinstance(e, ast.Call) and norm(e.func) == "_make_array"]
     raw = [e for e in lvs if e not in made]
@@ -188,7 +197,7 @@ def check_union_typevar(ctx):
     for c in single:
         if [norm(a) for a in c.args[:3]] != ["array_type", "dim_str", f.params[0]]:
             ctx.bad("C15.2", f, c, "the non-union annotation is not built from (array_type, dim_str, cls)")
-    filt = [n for n in ast.walk(f.node) if isinstance(n, ast.GeneratorExp) and any("_not_made" in norm(i) for g in n.generators for i in g.ifs)]
+    filt = [n for n in ast.walk(f.node) if isinstance(n, (ast.GeneratorExp, ast.ListComp)) and any("_not_made" in norm(i) for g in n.generators for i in g.ifs)]
     if not filt:
         ctx.bad("C15.2", f, f.node, "union members that cannot be made (scalar types outside the category) are not dropped", construct="_not_made filter")
     # the variable that holds the members that could be made (whatever it is called)
